@@ -277,4 +277,116 @@ theorem exec_ok {s s' : State} {op : Op} {rel : Coins} (inv : StoreInv s) (h : e
             exact hsl this d
     · simp [hv, Except.map] at h
 
+/-- a successful `MsgSend` / `MsgMultiSend` / `InputOutputCoinsProv` is its list of transfers -/
+theorem exec_transfer {s s' : State} {op : Op} {rel : Coins} (inv : StoreInv s) (h : exec s op = .ok (s', rel))
+    (hop : op.xfers ≠ []) : Transferred s s' op.xfers := by
+  cases op with
+  | send f t c =>
+    simp only [exec, msgSend] at h
+    cases hv : coinsValid c
+    · simp [hv, Except.map] at h
+    · simp only [hv, Bool.not_true, Bool.false_eq_true, if_false] at h
+      cases hb : bankTransfers s false [⟨f, t, c⟩] with
+      | error e => simp [hb, Except.map] at h
+      | ok s1 =>
+        simp only [hb, Except.map, Except.ok.injEq, Prod.mk.injEq] at h
+        obtain ⟨rfl, _⟩ := h
+        exact bankTransfers_ok inv hb
+  | msend f outs =>
+    simp only [exec, msgMultiSend] at h
+    cases hv : (outs.isEmpty || !outs.all fun o => coinsValid o.2)
+    · simp only [hv, Bool.false_eq_true, if_false] at h
+      cases hb : bankTransfers s false (outs.map fun o => ⟨f, o.1, o.2⟩) with
+      | error e => simp [hb, Except.map] at h
+      | ok s1 =>
+        simp only [hb, Except.map, Except.ok.injEq, Prod.mk.injEq] at h
+        obtain ⟨rfl, _⟩ := h
+        exact bankTransfers_ok inv hb
+    · simp [hv, Except.map] at h
+  | iosend ins t =>
+    simp only [exec, ioSend] at h
+    cases hv : (ins.isEmpty || !ins.all fun i => coinsValid i.2)
+    · simp only [hv, Bool.false_eq_true, if_false] at h
+      cases hb : bankTransfers s false (ins.map fun i => ⟨i.1, t, i.2⟩) with
+      | error e => simp [hb, Except.map] at h
+      | ok s1 =>
+        simp only [hb, Except.map, Except.ok.injEq, Prod.mk.injEq] at h
+        obtain ⟨rfl, _⟩ := h
+        exact bankTransfers_ok inv hb
+    · simp [hv, Except.map] at h
+  | optIn a => simp [Op.xfers] at hop
+  | optOut a => simp [Op.xfers] at hop
+  | auto to ups => simp [Op.xfers] at hop
+  | accept to froms perm => simp [Op.xfers] at hop
+  | decline to froms perm => simp [Op.xfers] at hop
+  | qadd to froms amt payer => simp [Op.xfers] at hop
+
+/-! ### the sum over the store equals the sum over any duplicate-free key list covering it -/
+
+section reindex
+variable {κ ν : Type} [DecidableEq κ]
+
+def sumStore (f : κ → ν → Int) : List (κ × ν) → Int
+  | [] => 0
+  | (k, v) :: t => f k v + sumStore f t
+
+def sumKeys (g : κ → Int) : List κ → Int
+  | [] => 0
+  | k :: t => g k + sumKeys g t
+
+theorem sumKeys_zero (ks : List κ) : sumKeys (fun _ => (0 : Int)) ks = 0 := by
+  induction ks with
+  | nil => rfl
+  | cons k t ih => simp [sumKeys, ih]
+
+theorem sumKeys_split (g : κ → Int) (k0 : κ) (c : Int) (hg : g k0 = 0) :
+    ∀ ks : List κ, ks.Nodup →
+      sumKeys (fun k => if k = k0 then c else g k) ks = (if k0 ∈ ks then c else 0) + sumKeys g ks := by
+  intro ks
+  induction ks with
+  | nil => intro _; simp [sumKeys]
+  | cons k t ih =>
+    intro hn
+    simp only [List.nodup_cons] at hn
+    have := ih hn.2
+    simp only [sumKeys, this, List.mem_cons]
+    by_cases hk : k = k0
+    · subst hk
+      simp [hn.1, hg]
+    · have hk' : ¬ k0 = k := fun e => hk e.symm
+      simp only [hk, hk', if_false, false_or]
+      omega
+
+theorem sumStore_eq_sumKeys (f : κ → ν → Int) :
+    ∀ (l : List (κ × ν)) (ks : List κ), (l.map (·.1)).Nodup → ks.Nodup →
+      (∀ e ∈ l, f e.1 e.2 ≠ 0 → e.1 ∈ ks) →
+      sumStore f l = sumKeys (fun k => match kvGet l k with | some v => f k v | none => 0) ks := by
+  intro l
+  induction l with
+  | nil =>
+    intro ks _ _ _
+    simp only [sumStore, kvGet_nil]
+    exact (sumKeys_zero ks).symm
+  | cons e t ih =>
+    intro ks hnl hnk hcov
+    obtain ⟨k0, v0⟩ := e
+    simp only [List.map_cons, List.nodup_cons] at hnl
+    have hnone : kvGet t k0 = none := kvGet_none_of_not_mem_keys hnl.1
+    have hfun : (fun k => match kvGet ((k0, v0) :: t) k with | some v => f k v | none => 0)
+        = (fun k => if k = k0 then f k0 v0 else (match kvGet t k with | some v => f k v | none => 0)) := by
+      funext k
+      by_cases hk : k = k0
+      · subst hk; simp [kvGet]
+      · have : ¬ k0 = k := fun e => hk e.symm
+        simp [kvGet, hk, this]
+    rw [hfun, sumKeys_split _ k0 _ (by simp [hnone]) ks hnk]
+    simp only [sumStore]
+    rw [ih ks hnl.2 hnk (fun e he hne => hcov e (List.mem_cons_of_mem _ he) hne)]
+    by_cases hz : f k0 v0 = 0
+    · simp [hz]
+    · have := hcov (k0, v0) (List.mem_cons_self ..) hz
+      simp [this]
+
+end reindex
+
 end PvProofs.QuarL
